@@ -13,6 +13,32 @@ func traffic(r *hx.Rand, in *Input, flit int, n int) {
 	}
 	pattern := r.Pick(4, 2, 2) // uniform random, hot-spot (all to one device), ping-pong pairs
 	hot := r.Intn(nd)
+	// half of the runs: tiny device-port buffers, and every multi-port device stalls one of its
+	// ports for a while (drains the others), so that its endpoint holds a message for the full port
+	// ahead of messages for the free ports; the traffic is then aimed at such a device
+	if r.Bool() {
+		in.PortBuf = r.Range(1, 2)
+		multi := -1
+		for d := 0; d < nd; d++ {
+			var pp []Pull
+			st := -1
+			if in.DevPorts[d] > 1 {
+				st = r.Intn(in.DevPorts[d])
+				multi = d
+			}
+			for q := 0; q < in.DevPorts[d]; q++ {
+				pl := in.Pulls[d]
+				if q == st {
+					pl.Stall = r.Range(20, 120)
+				}
+				pp = append(pp, pl)
+			}
+			in.PPulls = append(in.PPulls, pp)
+		}
+		if multi >= 0 {
+			pattern, hot = 1, multi
+		}
+	}
 	for i := 0; i < n; i++ {
 		sd := r.Intn(nd)
 		dd := r.Intn(nd)
@@ -59,7 +85,7 @@ func traffic(r *hx.Rand, in *Input, flit int, n int) {
 func devPorts(r *hx.Rand, n int) []int {
 	out := make([]int, n)
 	for i := range out {
-		out[i] = r.Pick(3, 1) + 1
+		out[i] = r.Pick(3, 3, 1) + 1
 	}
 	return out
 }
@@ -254,7 +280,7 @@ func init() {
 			"switch latency 0-3, buffers 1-4, 1-2 channels), PCIe trees (versions/widths -> flit size, latency 0-20), NVLink/PCIe hybrids " +
 			"(0-2 PCIe switches, NVLink pairs; bandwidth-first router), mesh 2D and 3D (flit 4-32, latency 0-2, 0.5-2 transfers/cycle); 2-6 devices with 1-2 ports, " +
 			"4-24 messages (uniform / hot-spot / neighbour traffic, byte counts tiny, random, near flit multiples), senders start at ticks 0-11, every device drains " +
-			"1-2 messages per port every 1-3 ticks. Events: device Send / RetrieveIncoming in engine order, End after engine.Run returns. " +
+			"1-2 messages per port every 1-3 ticks; in half of the runs device ports have 1-2 slot buffers and every multi-port device leaves one port untouched for 20-120 ticks while draining the others (traffic aimed at it). Events: device Send / RetrieveIncoming in engine order, End after engine.Run returns. " +
 			"Non-trivial: >=3 messages, >=2 switch hops per message on average, at least one multi-flit message. Distinct = distinct input hash.",
 		Gen: gen, Run: run, Shrink: shrink,
 	})
